@@ -21,4 +21,46 @@ pub fn xp1(i: &mut In, p: &[i64]) {
   std::mem::forget(days);
 }
 
-pub fn registry() -> Vec<(&'static str, Body)> { vec![("xp::xp1", xp1 as Body)] }
+pub fn registry() -> Vec<(&'static str, Body)> { vec![("xp::xp1", xp1 as Body), ("xp::xp2", xp2), ("xp::xp3", xp3)] }
+
+pub fn xp2(i: &mut In, p: &[i64]) {
+  let y = i.int(1, 9999);
+  let m = i.int(1, 12);
+  let start = i.int(0, 6);
+  let o1 = crate::env::set_base(i, y, m);
+  let first = SolarDay::from_ymd(y as isize, m as usize, 1);
+  if p[0] >= 1 {
+    let wd1 = first.get_week().get_index() as i64;
+    assert!(wd1 == ((o1 + 1) as u32 % 7) as i64);
+  }
+  if p[0] >= 2 {
+    let sm = SolarMonth::from_ym(y as isize, m as usize);
+    let c = sm.get_week_count(start as usize) as i64;
+    assert!(c >= 4 && c <= 6);
+  }
+  if p[0] >= 3 {
+    let f = first.next(i.int(-6, 35) as isize);
+    assert!(f.get_day() >= 1);
+  }
+}
+
+pub fn xp3(i: &mut In, p: &[i64]) {
+  let (y, m, d) = (i.int(p[1], p[2]), i.int(1, 12), i.int(1, 31));
+  i.assume(valid(y, m, d));
+  let start = i.int(0, 6);
+  let x = SolarDay::from_ymd(y as isize, m as usize, d as usize);
+  let o1 = crate::env::set_base(i, y, m);
+  let ox = crate::env::rel_ord(y, m, d);
+  assert!(ox == o1 + pos_in_month(y, m, d) - 1);
+  let w = x.get_solar_week(start as usize);
+  assert!(w.get_year() as i64 == y && w.get_month() as i64 == m);
+  if p[0] >= 2 {
+    let f = w.get_first_day();
+    let of = crate::env::rel_ord(f.get_year() as i64, f.get_month() as i64, f.get_day() as i64);
+    assert!(of <= ox && ox <= of + 6);
+    if p[0] >= 3 {
+      assert!(f.get_week().get_index() as i64 == start);
+    }
+  }
+  std::mem::forget(w);
+}
